@@ -850,3 +850,15 @@ def _map_into_iter(it, st, args, ctx):
 def _map_ref_into_iter(it, st, args, ctx):
     mm = map_of(it, st, args[0])
     return _mk_mapiter(mm, 'keys' if 'Set<' in ctx.callee else 'pairs', True)
+
+
+@summary(r'^core::slice::<impl \[.*\]>::split_first$')
+def _split_first(it, st, args, ctx):
+    ptr, s = seq_of(it, st, args[0])
+    if not s.fields:
+        return mk_none()
+    if ptr is None:
+        ptr = Ptr(st.alloc(s))
+    first = Ptr(ptr.cell, ptr.path + (('i', 0),))
+    rest = Ptr(ptr.cell, ptr.path + (('sub', 1, 0, True),))
+    return mk_some(Agg('tuple', [first, rest]))
